@@ -8,6 +8,8 @@ import time
 import concurrent.futures as cf
 
 HERE = os.path.dirname(os.path.abspath(__file__))
+import sys
+sys.path.insert(0, HERE)
 
 # name -> (properties, complete?, bound text, what it decides, crate function(s) it discharges, tier)
 H = {}
@@ -65,6 +67,18 @@ reg('std_filter_map_any_bounded', ['C15'], 'prelude wrappers vf_iter_any / vf_fi
     fn='vf_prelude::{vf_iter_any,vf_filter_map_collect}', complete=False, bound='lists of <= 3 elements', secondary=['C05'], tier='thorough')
 
 
+def twin_harnesses(fnkeys):
+    """Kani twins (complete, generated from the specification table) for the given failing functions."""
+    import spec_table
+    _, twins = spec_table.kani_twins()
+    out = []
+    for name, fns in twins.items():
+        if set(fns) & set(fnkeys):
+            out.append({'name': name, 'props': [], 'secondary': [], 'complete': True, 'bound': None, 'tier': 'quick',
+                        'what': 'Kani twin: complete check of %s against the specification table' % ', '.join(fns), 'fn': ', '.join(fns), 'twin_of': fns})
+    return out
+
+
 def harnesses_for(props, tier):
     out = []
     for h in H.values():
@@ -84,7 +98,10 @@ def make_scratch(repo, scratch):
     s = open(avp).read()
     s += '\n#[cfg(kani)]\nmod vf_kani;\n'
     open(avp, 'w').write(s)
-    shutil.copy(os.path.join(HERE, 'kani', 'vf_kani.rs'), os.path.join(scratch, 'src', 'message', 'avp', 'vf_kani.rs'))
+    import spec_table
+    twin_src, _ = spec_table.kani_twins()
+    body = open(os.path.join(HERE, 'kani', 'vf_kani.rs')).read() + twin_src
+    open(os.path.join(scratch, 'src', 'message', 'avp', 'vf_kani.rs'), 'w').write(body)
 
 
 def parse_kani(out, names):
